@@ -5,9 +5,11 @@ package main
 // and coq/Codec/WireSpec.v (wire_spec).
 //
 // exchange file:
-//   case <n> pkt <packet text> <extra> <fill>
-//   impl <n> len=<L> enc=<st>:<n>:<hex> dirty=<st>:<n>:<same 0|1>:<tail 0|1> short=<st>:<n> wr=<st>:<hex|=> rt=<st>:<n>:<packet text|=>
-//        st = ok | err | panic;   `=` means "identical to the enc bytes / to the original packet"
+//   case <n> pkt <packet text> <extra> <fill> [warm=<packet text the object held before>]
+//   impl <n> len=<L> enc=<st>:<n>:<hex> again=<Len() again>:<st>:<n>:<hex|=> dirty=<st>:<n>:<whole buffer hex|=>
+//            short=<cap>:<st>:<n>,… wr=<st>:<hex|=> cold=<st>:<hex|=>|- rt=<st>:<n>:<packet text|=>      (cold: Encoder.Write with an empty pool)
+//        st = ok | err | panic;   `=` means "identical to the enc bytes (dirty: followed by untouched fill) / to the original packet"
+//   batch <case numbers> <st>:<hex|=>            several packets through one Encoder (async, then flushed)
 //   hv <num> <varintLen>                         hh <rl> <headerLen>
 //   hw <num> <cap> <st>:<n>:<hex of the whole buffer>          (writeVarint, buffer pre-filled with a5)
 //   he <type> <flags> <rl> <tl> <cap> <st>:<n>:<hex>           (encodeHeader)
@@ -17,8 +19,10 @@ package main
 import (
 	"bytes"
 	"fmt"
+	"runtime"
 	"strconv"
 	"strings"
+	"time"
 
 	"github.com/256dpi/gomqtt/packet"
 
@@ -27,7 +31,7 @@ import (
 
 func main() { hx.Main(map[string]func(*hx.Ctx){"c01": runC01}) }
 
-const fill = 0xa5
+const fill = 0xa5 // helper buffers
 
 type recWriter struct{ buf bytes.Buffer }
 
@@ -93,30 +97,123 @@ func writeSafe(p packet.Generic) (st string, sent []byte) {
 
 // a larger packet full of ee bytes goes through the sync.Pool first, so that the pooled
 // buffer handed to the next Write holds stale non-zero content beyond any honest write
+// (GOMAXPROCS is 1, see runC01: the pool's per-P slot makes the re-use deterministic)
 func dirtyPool(size int) {
 	big := &packet.Publish{Message: packet.Message{Topic: "\xee\xee", Payload: bytes.Repeat([]byte{0xee}, size+64)}}
-	w := &recWriter{}
-	_ = packet.NewEncoder(w).Write(big, false)
+	writeSafe(big) // (a panic in here shows up in the observed write that follows)
 }
 
 var caseNo int
 
+// the last few successfully encoded cases, for the stream batches
+type doneCase struct {
+	n    int
+	text string
+	enc  []byte
+}
+
+var recent []doneCase
+
+// mutate changes the exported fields of a packet object in place (deterministically): used to
+// find state kept across calls (a cached length, a remembered buffer) — the warmed object must
+// behave like a fresh one holding the same values. Returns false for types without fields.
+func mutate(p packet.Generic) bool {
+	next := func(id packet.ID) packet.ID { return packet.ID(int(id)%65535 + 1) }
+	switch v := p.(type) {
+	case *packet.Connect:
+		v.ClientID += "y"
+		v.Username += "u"
+		v.KeepAlive++
+		if v.Will != nil {
+			v.Will.Payload = append(append([]byte{}, v.Will.Payload...), 0x55)
+			v.Will.Retain = !v.Will.Retain
+		} else {
+			v.CleanSession = true
+		}
+	case *packet.Connack:
+		v.SessionPresent = !v.SessionPresent
+		v.ReturnCode = (v.ReturnCode + 1) % 6
+	case *packet.Publish:
+		v.Message.Payload = append(append([]byte{}, v.Message.Payload...), 0x55)
+		v.Message.Topic += "z"
+		v.Dup = !v.Dup
+		if v.Message.QOS > 0 {
+			v.ID = next(v.ID)
+		}
+	case *packet.Puback:
+		v.ID = next(v.ID)
+	case *packet.Pubrec:
+		v.ID = next(v.ID)
+	case *packet.Pubrel:
+		v.ID = next(v.ID)
+	case *packet.Pubcomp:
+		v.ID = next(v.ID)
+	case *packet.Unsuback:
+		v.ID = next(v.ID)
+	case *packet.Subscribe:
+		v.Subscriptions = append(append([]packet.Subscription{}, v.Subscriptions...), packet.Subscription{Topic: "w/#", QOS: 1})
+		v.ID = next(v.ID)
+	case *packet.Suback:
+		v.ReturnCodes = append(append([]packet.QOS{}, v.ReturnCodes...), 2)
+		v.ID = next(v.ID)
+	case *packet.Unsubscribe:
+		v.Topics = append(append([]string{}, v.Topics...), "v")
+		v.ID = next(v.ID)
+	default:
+		return false
+	}
+	return true
+}
+
+// warmUp makes the object go through Len, Encode and Encoder.Write once.
+func warmUp(p packet.Generic) {
+	if l, ok := lenSafe(p); ok {
+		encodeSafe(p, make([]byte, l))
+		writeSafe(p)
+		lenSafe(p)
+	}
+}
+
+func shortCaps(l int) []int {
+	var out []int
+	seen := map[int]bool{}
+	for _, c := range []int{0, 1, l / 2, l - 2, l - 1} {
+		if c >= 0 && c < l && !seen[c] {
+			seen[c] = true
+			out = append(out, c)
+		}
+	}
+	return out
+}
+
 // observe emits the case and everything the implementation does with the packet.
-// Every operation works on a fresh copy (Connect.Encode mutates Version).
-func observe(c *hx.Ctx, text string, extra int) {
+// obj (optional) is a warmed object holding the value `text`; otherwise every operation works
+// on a fresh copy except Len / Encode / second Encode, which share one object.
+func observe(c *hx.Ctx, text string, extra int, fill byte, warmFrom string) {
 	caseNo++
 	n := caseNo
-	c.Emit("case %d pkt %s %d %02x", n, text, extra, fill)
 	fresh := func() packet.Generic { return hx.PktParse(text) }
-	p := fresh()
-	l, lok := lenSafe(p)
+	var obj packet.Generic
+	if warmFrom != "" {
+		obj = hx.PktParse(warmFrom)
+		warmUp(obj)
+		mutate(obj)
+		if hx.PktText(obj) != text {
+			panic("warm case does not reproduce: " + warmFrom)
+		}
+		c.Emit("case %d pkt %s %d %02x warm=%s", n, text, extra, fill, warmFrom)
+	} else {
+		obj = fresh()
+		c.Emit("case %d pkt %s %d %02x", n, text, extra, fill)
+	}
+	l, lok := lenSafe(obj)
 	if !lok {
 		c.Emit("impl %d len=panic", n)
 		return
 	}
-	// exact buffer
+	// exact buffer, the same object that reported Len()
 	buf := make([]byte, l)
-	st, en := encodeSafe(fresh(), buf)
+	st, en := encodeSafe(obj, buf)
 	encBytes := buf
 	if st == "ok" && en >= 0 && en <= l {
 		encBytes = buf[:en]
@@ -125,37 +222,84 @@ func observe(c *hx.Ctx, text string, extra int) {
 	if st != "ok" {
 		encField = fmt.Sprintf("%s:%d:-", st, en)
 	}
-	// dirty oversized buffer
+	// the same object once more: Len() and Encode must not depend on earlier calls
+	l2, l2ok := lenSafe(obj)
+	if !l2ok {
+		l2 = -1
+	}
+	buf2 := make([]byte, l)
+	st2, en2 := encodeSafe(obj, buf2)
+	againField := fmt.Sprintf("%d:%s:%d:-", l2, st2, en2)
+	if st2 == "ok" {
+		b2 := buf2
+		if en2 >= 0 && en2 <= l {
+			b2 = buf2[:en2]
+		}
+		h := hx.Hx(b2)
+		if st == "ok" && bytes.Equal(b2, encBytes) {
+			h = "="
+		}
+		againField = fmt.Sprintf("%d:%s:%d:%s", l2, st2, en2, h)
+	}
+	// dirty oversized buffer: the whole buffer afterwards (`=` : enc bytes followed by untouched fill)
 	dbuf := bytes.Repeat([]byte{fill}, l+extra)
 	dst, dn := encodeSafe(fresh(), dbuf)
-	same, tail := 0, 0
-	if dst == "ok" && dn >= 0 && dn <= len(dbuf) {
-		if bytes.Equal(dbuf[:dn], encBytes) {
-			same = 1
-		}
-		tail = 1
-		for _, b := range dbuf[dn:] {
-			if b != fill {
-				tail = 0
+	dirtyField := fmt.Sprintf("%s:%d:-", dst, dn)
+	if dst == "ok" {
+		h := hx.Hx(dbuf)
+		if st == "ok" && len(encBytes) <= len(dbuf) && bytes.Equal(dbuf[:len(encBytes)], encBytes) {
+			clean := true
+			for _, b := range dbuf[len(encBytes):] {
+				if b != fill {
+					clean = false
+					break
+				}
+			}
+			if clean {
+				h = "="
 			}
 		}
+		dirtyField = fmt.Sprintf("%s:%d:%s", dst, dn, h)
 	}
-	// one byte short
-	sst, sn := "err", 0
-	if l >= 1 {
-		sst, sn = encodeSafe(fresh(), make([]byte, l-1))
+	// too short: several capacities below Len()
+	var shorts []string
+	for _, capacity := range shortCaps(l) {
+		sst, sn := encodeSafe(fresh(), make([]byte, capacity))
+		shorts = append(shorts, fmt.Sprintf("%d:%s:%d", capacity, sst, sn))
+	}
+	shortField := strings.Join(shorts, ",")
+	if shortField == "" {
+		shortField = "-"
 	}
 	// through the stream encoder, after a larger packet went through the pool
 	dirtyPool(l)
-	wst, sent := writeSafe(fresh())
+	wobj := obj
+	if warmFrom == "" {
+		wobj = fresh()
+	}
+	wst, sent := writeSafe(wobj)
 	wr := hx.Hx(sent)
 	if st == "ok" && bytes.Equal(sent, encBytes) {
 		wr = "="
 	}
+	// … and with an EMPTY pool (two collections drop every pooled buffer): the encoder has to
+	// size a new buffer itself
+	coldField := "-"
+	if n%40 == 0 || (l > 3000 && l < 300000) {
+		runtime.GC()
+		runtime.GC()
+		cst, csent := writeSafe(fresh())
+		ch := hx.Hx(csent)
+		if st == "ok" && bytes.Equal(csent, encBytes) {
+			ch = "="
+		}
+		coldField = cst + ":" + ch
+		c.Stat("cold_pool_writes", 1)
+	}
 	// implementation round trip
 	rt := "skip:0:-"
 	if st == "ok" {
-		rst, rn, q := decodeSafe(p.Type(), encBytes)
+		rst, rn, q := decodeSafe(obj.Type(), encBytes)
 		qt := "-"
 		if q != nil {
 			qt = hx.PktText(q)
@@ -165,17 +309,75 @@ func observe(c *hx.Ctx, text string, extra int) {
 		}
 		rt = fmt.Sprintf("%s:%d:%s", rst, rn, qt)
 	}
-	c.Emit("impl %d len=%d enc=%s dirty=%s:%d:%d:%d short=%s:%d wr=%s:%s rt=%s", n, l, encField, dst, dn, same, tail, sst, sn, wst, wr, rt)
+	c.Emit("impl %d len=%d enc=%s again=%s dirty=%s short=%s wr=%s:%s cold=%s rt=%s", n, l, encField, againField, dirtyField, shortField, wst, wr, coldField, rt)
 	c.Stat("cases", 1)
 	c.Stat("type_"+strings.SplitN(text, ":", 2)[0], 1)
+	if warmFrom != "" {
+		c.Stat("warmed_object_cases", 1)
+	}
 	if st == "ok" {
 		c.Stat("encoded_ok", 1)
+		if len(encBytes) < 70000 {
+			recent = append(recent, doneCase{n, text, append([]byte{}, encBytes...)})
+			if len(recent) > 6 {
+				recent = recent[1:]
+			}
+		}
 	} else {
 		c.Stat("encode_rejected", 1)
 	}
 	if len(text) < 200 && n%97 == 5 {
-		c.Sample(fmt.Sprintf("%s len=%d enc=%s dirty=%s:%d short=%s wr=%s rt=%s", text, l, encField, dst, dn, sst, wst, rt))
+		c.Sample(fmt.Sprintf("%s len=%d enc=%s dirty=%s short=%s wr=%s rt=%s", text, l, encField, dirtyField, shortField, wst, rt))
 	}
+	if n%25 == 0 && warmFrom == "" {
+		streamBatch(c)
+	}
+}
+
+// streamBatch writes the last few encodable packets through ONE Encoder, asynchronously with a
+// long write delay, then Flush: the wire must be the concatenation of their encodings.
+//   batch <k1,k2,…> <st>:<hex|=>         (`=` : equal to the concatenation of the cases' enc bytes)
+func streamBatch(c *hx.Ctx) {
+	if len(recent) < 2 {
+		return
+	}
+	var ids []string
+	var texts []string
+	var want []byte
+	for _, d := range recent {
+		ids = append(ids, strconv.Itoa(d.n))
+		texts = append(texts, d.text)
+		want = append(want, d.enc...)
+	}
+	st, wire := streamSafe(texts)
+	h := hx.Hx(wire)
+	if bytes.Equal(wire, want) {
+		h = "="
+	}
+	c.Emit("batch %s %s:%s", strings.Join(ids, ","), st, h)
+	c.Stat("stream_batches", 1)
+}
+
+func streamSafe(texts []string) (st string, wire []byte) {
+	w := &recWriter{}
+	defer func() {
+		if r := recover(); r != nil {
+			st, wire = "panic", w.buf.Bytes()
+		}
+	}()
+	enc := packet.NewEncoder(w)
+	enc.SetMaxWriteDelay(time.Hour)
+	for i, t := range texts {
+		dirtyPool(len(t))
+		// all but the last asynchronously (buffered), the last one synchronously (flushes all)
+		if err := enc.Write(hx.PktParse(t), i < len(texts)-1); err != nil {
+			return "err", w.buf.Bytes()
+		}
+	}
+	if err := enc.Flush(); err != nil {
+		return "err", w.buf.Bytes()
+	}
+	return "ok", w.buf.Bytes()
 }
 
 // ---------------------------------------------------------------- helper functions
@@ -374,9 +576,17 @@ func replay(c *hx.Ctx) {
 		at := func(i int) int { v, _ := strconv.Atoi(f[i]); return v }
 		switch f[0] {
 		case "case":
-			if len(f) >= 5 && f[2] == "pkt" {
-				observe(c, f[3], at(4))
+			if len(f) >= 6 && f[2] == "pkt" {
+				fb, _ := strconv.ParseUint(f[5], 16, 8)
+				warm := ""
+				if len(f) >= 7 && strings.HasPrefix(f[6], "warm=") {
+					warm = f[6][5:]
+				}
+				observe(c, f[3], at(4), byte(fb), warm)
 			}
+		case "batch":
+			// a replay file lists the cases of the batch before the batch line; they were just re-observed
+			streamBatch(c)
 		case "hw":
 			v, _ := strconv.ParseUint(f[1], 10, 64)
 			helperVarint(c, v, at(2))
@@ -398,6 +608,7 @@ func replay(c *hx.Ctx) {
 }
 
 func runC01(c *hx.Ctx) {
+	runtime.GOMAXPROCS(1) // sync.Pool keeps one private buffer per P: the stale-pool-bytes probe is deterministic
 	if c.Replay != "" {
 		replay(c)
 		return
